@@ -39,7 +39,7 @@ def demo_plan(d, meta):
     # destinations named in the command: `cp SEED/..../demo.rs <dest>`
     dests = re.findall(r"cp\s+\S*?(demo\w*\.rs)\s+(\S+\.rs)", cmd)
     for src, dst in dests:
-        files.append((os.path.join(d, src), re.sub(r"^/tmp/wt-C\d+/", "", dst)))
+        files.append((os.path.join(d, src), re.sub(r"^/tmp/[\w-]+/", "", dst)))
     if not files:
         m = re.findall(r"(rbx_\w+/tests/\S+\.rs)", loc + " " + cmd)
         for i, dm in enumerate(demos):
